@@ -187,7 +187,14 @@ fn render(case: &Case) -> (Vec<String>, Vec<String>) {
             Block::Foreign { fence, lang, body } => {
                 let mut v = vec![format!("{}{}", "`".repeat(*fence), lang)];
                 v.extend(body.iter().cloned());
-                v.push("`".repeat(*fence));
+                // the closing fence is not always byte-identical to the opening backticks: a longer run and
+                // trailing blanks close a block just as well, and are outside lines like any other
+                let extra = match lang.as_str() {
+                    "python" => "`",
+                    "sh" => "   ",
+                    _ => "",
+                };
+                v.push(format!("{}{extra}", "`".repeat(*fence)));
                 outside.extend(v.iter().cloned());
                 all.extend(v);
             }
